@@ -542,25 +542,47 @@ class FnTaint:
                 if g:
                     return g + " at %s" % self.fn.site(cb.tloc or "")
                 continue
-            for l, op, r in ats:
-                for side, other, o in ((l, r, op), (r, l, FLIP[op])):
-                    if side is None or other is None:
-                        continue
-                    if lab not in self.labels(side, cb.id):
-                        continue
-                    if o not in ("<", "<=", "=="):
-                        continue
-                    if o != "==" and self.wraps(side):
-                        continue      # the guarded expression may wrap around
-                    why = self._other_kind(other, cb.id, kinds, o, depth, lab)
-                    if why:
-                        return "%s `%s` (%s edge) at %s" % (
-                            why, cb.condsrc, "true" if outcome else "false",
-                            self.fn.site(cb.tloc or ""))
+            why = self.atoms_bound(lab, ats, cb.id, kinds, depth)
+            if why:
+                return "%s `%s` (%s edge) at %s" % (
+                    why, cb.condsrc, "true" if outcome else "false",
+                    self.fn.site(cb.tloc or ""))
         g = self._switch_guard(lab, block, kinds)
         if g:
             return g
         return self._conditional_guard(lab, block, kinds, depth)
+
+    def atoms_bound(self, lab, ats, cblock, kinds, depth=0):
+        """Does one of the atoms (known to hold) bound the label above by an accepted kind?"""
+        for l, op, r in ats:
+            for side, other, o in ((l, r, op), (r, l, FLIP[op])):
+                if side is None or other is None:
+                    continue
+                if lab not in self.labels(side, cblock):
+                    continue
+                if o not in ("<", "<=", "=="):
+                    continue
+                if o != "==" and self.wraps(side):
+                    continue      # the guarded expression may wrap around
+                why = self._other_kind(other, cblock, kinds, o, depth, lab)
+                if why:
+                    return why
+        return None
+
+    def sign_wraps(self, other):
+        """`x <= static_cast<size_t>(signed expression)`: a negative bound becomes 2^64 - k and the
+        comparison passes for every x.  Only non-constant signed sources count."""
+        for n in walk(other):
+            if n.get("k") in ("cast", "icast") and n.get("is") is False and (n.get("iw") or 0) >= 64 and "v" not in n:
+                e = n.get("e")
+                while isinstance(e, dict) and e.get("k") in ("copy", "paren"):
+                    e = e.get("e")
+                if isinstance(e, dict) and e.get("is") is True and "v" not in e and \
+                        e.get("k") in ("call", "bin", "var", "field", "param") and (e.get("iw") or 0) >= 32:
+                    if e.get("k") == "call" and strip_targs(e.get("fn") or "").endswith(("::size", "::num_points", "::num_faces")):
+                        continue
+                    return True
+        return False
 
     def _switch_guard(self, lab, block, kinds):
         """`switch (x) { case A: case B: break; default: return false; }`:
@@ -850,6 +872,9 @@ class Engine:
                     continue
                 n_ok += 1
                 why = ft.bounded(lab, b.id, ("G1", "G2", "G3", "G4"))
+                if not why and isinstance(e, dict) and e.get("k") != "lit":
+                    # `return a <= b;` / `return ok && n <= limit;`: the returned condition holds on success
+                    why = ft.atoms_bound(lab, ft.atoms(e, True), b.id, ("G1", "G2", "G3", "G4"))
                 if not why:
                     ok = False
                     break
